@@ -135,23 +135,26 @@ def add_query_argument(url, name, value=None, quote=True):
     if quote:
         name = unshadowed_quote(name)
 
-    if value == True or value is None:
+    if value is True or value is None:
         arg = name
     else:
+        value = str(value)
+
         if quote:
-            value = unshadowed_quote(str(value))
+            value = unshadowed_quote(value)
 
         arg = name + "=" + value
 
     query = None
     fragment = None
 
-    s = url.rsplit("#", 1)
+    # NOTE: the fragment starts at the first "#" and the query at the first "?"
+    s = url.split("#", 1)
 
     if len(s) > 1:
         url, fragment = s
 
-    s = url.rsplit("?", 1)
+    s = url.split("?", 1)
 
     if len(s) > 1:
         url, query = s
